@@ -402,8 +402,11 @@ theorem onPublish_topics (b : B) (m : Msg) : (onPublish b m).1.topics = (retainS
 
 /-- an event that carries no application message into the broker: everything
 except PUBLISH, PUBREL (which releases stored QoS 2 messages), DISCONNECT and
-connection end (which may publish the will) and the in-process `Publish` -/
+connection end (which may publish the will), a CONNECT with a supplied client
+identifier (it ends an existing connection of that client, MQTT-3.1.4-2, whose
+will is then published) and the in-process `Publish` -/
 def carriesNoMessage : Ev → Bool
+  | .first _ (.connect req) _ => req.clientId.isEmpty
   | .first _ _ _ => true
   | .packet _ (.publish _) => false
   | .packet _ (.pubrel _) => false
@@ -464,7 +467,13 @@ theorem packet_rroot (b : B) (hinv : Inv b) (c : Nat) (p : Packet)
 theorem step_rroot (b : B) (hinv : Inv b) (e : Ev) (he : carriesNoMessage e = true) :
     (step b e).1.topics.rroot = b.topics.rroot := by
   cases e with
-  | first c f a => exact first_rroot b hinv c f a
+  | first c f a =>
+    have ht : takeOver b f a = (b, []) := by
+      rcases Mqtt.Proofs.Connect.takeOver_cases b f a with h0 | ⟨req, rfl, _, _, hne, _⟩
+      · exact h0
+      · simp [carriesNoMessage, hne] at he
+    rw [Mqtt.Proofs.Connect.step_first_eq, Mqtt.Proofs.Connect.connect_eq, ht]
+    exact first_rroot b hinv c f a
   | packet c p => exact packet_rroot b hinv c p he
   | close c => simp [carriesNoMessage] at he
   | srvPub p => simp [carriesNoMessage] at he
